@@ -25,10 +25,12 @@ namespace {
 int g_default_threads = 0; // nthreads-var
 int g_mode = -1;           // 0 threads, 1 seq
 uint64_t g_perm_seed = 0;
+int64_t g_perm_index = -1; // >= 0: every region uses permutation number (index mod team!) in lexicographic order
 int g_force_team = 0;
 int g_delay_us = 0;
 uint64_t g_regions = 0, g_members = 0, g_team_mask = 0, g_order_hash = 0, g_nonidentity = 0;
 uint64_t g_team_hist[65];
+std::vector<uint64_t> g_orders; // distinct (team, member order) hashes seen, capped
 
 __thread int t_num = 0;
 __thread int t_team = 1;
@@ -87,6 +89,20 @@ void verif_omp_set_mode(int mode, uint64_t perm_seed, int force_team)
     g_mode = mode;
     g_perm_seed = perm_seed;
     g_force_team = force_team;
+    g_perm_index = -1;
+}
+// sequential mode with one fixed member order for every region: the index-th permutation (factoradic, mod team!)
+void verif_omp_set_perm_index(int64_t index, int force_team)
+{
+    init();
+    g_mode = 1;
+    g_perm_index = index;
+    g_force_team = force_team;
+}
+void verif_omp_set_delay(int delay_us)
+{
+    init();
+    g_delay_us = delay_us;
 }
 // stats: regions entered, members run, bit mask of team sizes (bit min(size,63)), xor-hash of member orders, regions with non-identity order
 void verif_omp_stats(uint64_t out[5])
@@ -94,6 +110,8 @@ void verif_omp_stats(uint64_t out[5])
     out[0] = g_regions; out[1] = g_members; out[2] = g_team_mask; out[3] = g_order_hash; out[4] = g_nonidentity;
 }
 int verif_omp_is_shim(void) { return 1; }
+uint64_t verif_omp_distinct_orders(void) { return (uint64_t)g_orders.size(); }
+void verif_omp_reset_orders(void) { g_orders.clear(); }
 
 void GOMP_parallel(void (*fn)(void *), void *data, unsigned num_threads, unsigned flags)
 {
@@ -117,7 +135,27 @@ void GOMP_parallel(void (*fn)(void *), void *data, unsigned num_threads, unsigne
     {
         std::vector<int> order(team);
         for (int i = 0; i < team; i++) order[i] = i;
-        if (g_perm_seed)
+        if (g_perm_index >= 0)
+        {
+            // factoradic decoding of the permutation index
+            std::vector<int> pool(order);
+            uint64_t idx = (uint64_t)g_perm_index;
+            uint64_t fact = 1;
+            int lim = team > 20 ? 20 : team;
+            for (int i = 2; i <= lim; i++) fact *= (uint64_t)i;
+            idx %= fact;
+            for (int i = 0; i < team; i++)
+            {
+                int rem = team - i;
+                uint64_t f = 1;
+                for (int q = 2; q < (rem > 20 ? 21 : rem); q++) f *= (uint64_t)q; // (rem-1)!
+                uint64_t pos = rem > 20 ? 0 : idx / f;
+                if (rem <= 20) idx %= f;
+                order[i] = pool[pos];
+                pool.erase(pool.begin() + (long)pos);
+            }
+        }
+        else if (g_perm_seed)
         {
             uint64_t x = g_perm_seed ^ (g_regions * 0x9E3779B97F4A7C15ULL);
             for (int i = team - 1; i > 0; i--)
@@ -130,6 +168,10 @@ void GOMP_parallel(void (*fn)(void *), void *data, unsigned num_threads, unsigne
         bool ident = true;
         for (int i = 0; i < team; i++) { h = (h ^ (uint64_t)order[i]) * 1099511628211ULL; if (order[i] != i) ident = false; }
         g_order_hash ^= h * (uint64_t)(team + 1);
+        {
+            uint64_t hh = h * 31 + (uint64_t)team;
+            if (g_orders.size() < 8192 && std::find(g_orders.begin(), g_orders.end(), hh) == g_orders.end()) g_orders.push_back(hh);
+        }
         if (!ident) g_nonidentity++;
         for (int i = 0; i < team; i++)
         {
